@@ -215,6 +215,17 @@ type scenario struct {
 	Label             string
 }
 
+// longAbsence: in a committee of two, one member goes down when the Notary role appears and stays away for 750 blocks.
+// Everything the other one asks the Notary service for in the meantime expires unsigned, and each expired request costs
+// it a part of its Notary deposit (a request lives about 70 blocks, a deposit pays for eight): the deposit has to be
+// refilled on the way, or the member can neither ask nor co-sign any more when its partner is back (seeded change
+// C13-11: the refill carries an expiration height the Notary contract refuses). Faster blocks keep the run short.
+func longAbsence(s scenario, of int) scenario {
+	s.BlockMS = 40
+	s.RestartOf, s.RestartWhen, s.RestartAt, s.RestartDelay = of, "notary-designated", 0, 750
+	return s
+}
+
 func scenarios(tier string, seed uint64) (res []scenario) {
 	r := rand.New(rand.NewPCG(seed, 0xC13))
 	mk := func(n int, label string) scenario {
@@ -270,6 +281,7 @@ func scenarios(tier string, seed uint64) (res []scenario) {
 		s = jit(mk(2, "stage-restart"))
 		s.RestartOf, s.RestartWhen, s.RestartAt = r.IntN(2), runner.Pick(r, stages), r.IntN(3)
 		res = append(res, s)
+		res = append(res, longAbsence(mk(2, "long-absence"), 1))
 		// crash points: a member dies right after its k-th accepted submission and starts again 0-3 blocks later.
 		// A lone member makes 26 of them, a leader of three about 40, another member about 23 (counted on the
 		// unchanged tree); the quick tier draws four points per seed, the thorough tier runs them all.
@@ -295,6 +307,7 @@ func scenarios(tier string, seed uint64) (res []scenario) {
 	for k := 1; k <= 25; k++ {
 		res = append(res, crashPoint(jit(mk(3, "crash-point")), 1+k%2, k, r.IntN(4)))
 	}
+	res = append(res, longAbsence(mk(2, "long-absence"), 1), longAbsence(mk(2, "long-absence"), 0))
 	for n := 1; n <= 7; n++ {
 		res = append(res, mk(n, "plain"))
 		res = append(res, jit(mk(n, "jitter")))
